@@ -33,12 +33,12 @@ from . import paircorpus
 _pairs = {}
 
 
-def pairs(tier, seed, sample=None, with_singles=True):
+def pairs(tier, seed, sample=None, with_singles=True, layout="A"):
     """-> (xml_dir, types, classes) of the mechanically generated pair corpus for this run"""
-    key = (tier, seed, sample, with_singles)
+    key = (tier, seed, sample, with_singles, layout)
     if key not in _pairs:
         specs = paircorpus.select(tier, seed, sample, with_singles)
-        d = paircorpus.make(specs)
+        d = paircorpus.make(specs, layout)
         types, cls = Tree(d).schema()
         _pairs[key] = (d, types, cls)
     return _pairs[key]
